@@ -383,8 +383,45 @@ struct coord_fn {
 typedef gil::virtual_2d_locator<coord_fn, false> vloc_t;
 typedef gil::image_view<vloc_t> vview_t;
 
+// stateful converter: gray16 = red + offset
+struct voffset_cc {
+    int offset;
+    template <class S, class D> void operator()(S const& src, D& dst) const { gil::get_color(dst, gil::gray_color_t()) = (uint16_t)((int)gil::get_color(src, gil::red_t()) + offset); }
+};
 struct vchecker {
     uint64_t n_pix = 0, n_views = 0;
+    long ox = 0, oy = 0, stx = 1, sty = 1;      // origin and step of the base locator
+    gil::rgb16_pixel_t expect(long sx, long sy) const { return coord_fn()(gil::point_t(ox + stx * sx, oy + sty * sy)); }
+    // a view with one 16-bit channel produced by a dereference adaptor on top of a derived virtual view
+    template <class CV, class F> void chk_adapt(CV const& cv, mapping const& m, const char* what, F want) {
+        ++n_views;
+        if (cv.width() != m.w || cv.height() != m.h) { vh::viol(vh::cat(what, "-dims.virtual"), vh::cat("word=", m.word())); return; }
+        for (long y = 0; y < m.h; ++y)
+            for (long x = 0; x < m.w; ++x) {
+                long sx, sy; m.map(x, y, sx, sy);
+                ++n_pix;
+                if ((long)cv(x, y)[0] != want(sx, sy)) { vh::viol(vh::cat(what, ".virtual"), vh::cat("word=", m.word(), " (", x, ",", y, ") reads ", (long)cv(x, y)[0], " expected ", want(sx, sy), " from source (", sx, ",", sy, ")")); return; }
+            }
+    }
+    template <class CV, class F> void adapt_all(CV const& cv, mapping const& m, const char* what, F want) {
+        chk_adapt(cv, m, what, want);
+        typename CV::const_t ccv(cv);
+        chk_adapt(ccv, m, what, want);
+        { mapping n = m; n.push(OP_FLIPLR); chk_adapt(gil::flipped_left_right_view(cv), n, what, want); }
+        { mapping n = m; n.push(OP_TRANSPOSE); chk_adapt(gil::transposed_view(cv), n, what, want); }
+        { mapping n = m; n.push(OP_SS23); chk_adapt(gil::subsampled_view(cv, 2, 3), n, what, want); }
+    }
+    template <class W> void adaptors(W const& d, mapping const& m) {
+        if (m.steps.size() > 2) return;
+        for (int k = 0; k < 3; ++k) {
+            adapt_all(gil::nth_channel_view(d, k), m, "adaptor-nth", [&](long sx, long sy) { return (long)expect(sx, sy)[k]; });
+            auto conv = gil::color_converted_view<gil::bgr16_pixel_t>(d);
+            adapt_all(gil::nth_channel_view(conv, k), m, "adaptor-ccv-nth", [&](long sx, long sy) { return (long)expect(sx, sy)[2 - k]; });
+        }
+        adapt_all(gil::kth_channel_view<2>(d), m, "adaptor-kth", [&](long sx, long sy) { return (long)expect(sx, sy)[2]; });
+        voffset_cc cc = {41 + (int)(m.w * 3 + m.h)};
+        adapt_all(gil::color_converted_view<gil::gray16_pixel_t>(d, cc), m, "adaptor-ccv-stateful", [&](long sx, long sy) { return (long)(uint16_t)((int)expect(sx, sy)[0] + cc.offset); });
+    }
     template <class W> void check(W const& d, mapping const& m) {
         ++n_views;
         if (d.width() != m.w || d.height() != m.h) { vh::viol("dims.virtual", vh::cat("word=", m.word(), " derived ", d.width(), "x", d.height(), " expected ", m.w, "x", m.h)); return; }
@@ -393,9 +430,10 @@ struct vchecker {
                 long sx, sy; m.map(x, y, sx, sy);
                 gil::rgb16_pixel_t p = d(x, y);
                 ++n_pix;
-                if (p[0] != sx + 1000 || p[1] != sy + 2000)
-                    vh::viol("identity.virtual", vh::cat("word=", m.word(), " derived(", x, ",", y, ") yields source (", (long)p[0] - 1000, ",", (long)p[1] - 2000, ") expected (", sx, ",", sy, ")"));
+                if (p[0] != ox + stx * sx + 1000 || p[1] != oy + sty * sy + 2000)
+                    vh::viol("identity.virtual", vh::cat("word=", m.word(), " derived(", x, ",", y, ") yields position (", (long)p[0] - 1000, ",", (long)p[1] - 2000, ") expected (", ox + stx * sx, ",", oy + sty * sy, ")"));
             }
+        adaptors(d, m);
     }
     // the closure of view types under the transformations is finite (transposed toggles one flag),
     // so plain template recursion with a run-time depth terminates at the type level
@@ -427,7 +465,11 @@ int main(int argc, char** argv) {
             vview_t v(gil::point_t(w, h), vloc_t(gil::point_t(0, 0), gil::point_t(1, 1), coord_fn()));
             vchecker c;
             c.rec(v, mapping(w, h), depth);
-            vh::evals(c.n_pix); vh::distinct(c.n_views); vh::count("views", c.n_views);
+            // a base locator with a non-zero origin and non-unit steps
+            vchecker c2; c2.ox = 3; c2.oy = 5; c2.stx = 2; c2.sty = 3;
+            vview_t v2(gil::point_t(w, h), vloc_t(gil::point_t(3, 5), gil::point_t(2, 3), coord_fn()));
+            c2.rec(v2, mapping(w, h), depth > 2 ? 2 : depth);
+            vh::evals(c.n_pix + c2.n_pix); vh::distinct(c.n_views + c2.n_views); vh::count("views", c.n_views + c2.n_views);
         }
     return vh::finish();
 }
